@@ -12,7 +12,7 @@ void harness(void) {
     __CPROVER_assume(f.face >= 0 && f.face < 20);
     __CPROVER_assume(f.coord.i >= 0 && f.coord.j >= 0 && f.coord.k >= 0 && (f.coord.i == 0 || f.coord.j == 0 || f.coord.k == 0));
     // the address lies on the face triangle it is expressed on (what _geoToFaceIjk produces), with one cell of slack
-    __CPROVER_assume(f.coord.i + f.coord.j + f.coord.k <= MAXD);
+    __CPROVER_assume(f.coord.i <= MAXD && f.coord.j <= MAXD && f.coord.k <= MAXD && f.coord.i + f.coord.j + f.coord.k <= MAXD);
     VP_EXCLUDE();
     H3Index h = _faceIjkToH3(&f, RES);
     if (h != 0) {
